@@ -18,8 +18,18 @@ fn value() -> impl Strategy<Value = f32> + Clone {
     ]
 }
 
+/// vectors whose elements share a magnitude class (all small / all large / mixed)
 fn vec_len(n: usize) -> impl Strategy<Value = Vec<f32>> + Clone {
-    proptest::collection::vec(value(), n)
+    (proptest::collection::vec(value(), n), prop_oneof![4 => Just(1.0f32), 1 => Just(1e-3f32), 1 => Just(1e-2f32), 1 => Just(30.0f32)], any::<bool>()).prop_map(|(v, scale, unit)| {
+        if scale == 1.0 {
+            v
+        } else if unit {
+            // same magnitude for every element
+            v.iter().map(|x| if *x == 0.0 { 0.0 } else { x.signum() * scale * (1.0 + (x.abs().ln().abs() % 1.0)) }).collect()
+        } else {
+            v.iter().map(|x| (x * scale).clamp(-1e3, 1e3)).collect()
+        }
+    })
 }
 
 fn pad8(v: &[f32]) -> Vec<f32> {
